@@ -40,6 +40,10 @@ type Server struct {
 	// until the blob is mounted (POST ?mount=) or uploaded there
 	OtherRepo map[string]bool
 
+	// OnNetPoint, if set, is called before every request and every body read while faults are possible (the
+	// harness uses it to let the client go away exactly there: one deviation wherever in the transfer it is)
+	OnNetPoint func(label string)
+
 	Log          []string
 	Accepted     map[string]bool // digests whose upload was completed (or found present)
 	ManifestPuts []string
@@ -87,10 +91,14 @@ type body struct {
 	stall    int  // -1: none; else block at this offset until the request context is done
 	label    string
 	closed   bool
+	srv      *Server
 }
 
 func (b *body) Read(p []byte) (int, error) {
 	mcrt.NetPoint("read " + b.label)
+	if b.srv != nil && b.srv.OnNetPoint != nil && !b.srv.NoFaultsLeft {
+		b.srv.OnNetPoint("read " + b.label)
+	}
 	if err := b.ctx.Err(); err != nil {
 		return 0, context.Cause(b.ctx)
 	}
@@ -147,7 +155,7 @@ func (s *Server) resp(req *http.Request, code int, hdr map[string]string, data [
 	if v, err := strconv.ParseInt(h.Get("Content-Length"), 10, 64); err == nil {
 		cl = v
 	}
-	var rb io.ReadCloser = &body{ctx: req.Context(), data: data, readSize: rs, truncate: -1, stall: -1, label: req.Method + " " + req.URL.Path}
+	var rb io.ReadCloser = &body{ctx: req.Context(), data: data, readSize: rs, truncate: -1, stall: -1, label: req.Method + " " + req.URL.Path, srv: s}
 	if req.Method == "HEAD" {
 		rb = http.NoBody
 	}
@@ -191,6 +199,9 @@ func (s *Server) RoundTrip(req *http.Request) (*http.Response, error) {
 		label += " [" + r + "]"
 	}
 	mcrt.NetPoint(label)
+	if s.OnNetPoint != nil && !s.NoFaultsLeft {
+		s.OnNetPoint(label)
+	}
 	s.logf("%s", label)
 	if req.Body != nil && req.Body != http.NoBody {
 		defer req.Body.Close()
